@@ -95,11 +95,11 @@ def validate_chunk(k, sessions, props, work, timeout):
             f.write(out)
         raise ToolError(f"TLC did not reach the end of chunk {k} ({n} events); output kept at {keep}:\n" + out[-3000:])
     bad = []
-    for m in re.finditer(r'<<"NONCONFORMING", (\d+), "([a-z_]+)">>', out):
+    for m in re.finditer(r'<<"NONCONFORMING", (\d+), "([a-z_0-9]+)", "([^"]*)">>', out):
         line = int(m.group(1))
         # session containing this line
         si = max(i for i, st in enumerate(starts) if st <= line)
-        bad.append((si, line - starts[si], m.group(2)))
+        bad.append((si, line - starts[si], m.group(2), m.group(3)))
     states, trans = parse_tlc_counts(out)
     # a few lines of the recorded trace as samples, and the class counts for the evidence
     return {"bad": bad, "events": n, "states": states, "transitions": trans, "trace": trace, "starts": starts}
@@ -126,9 +126,10 @@ def load_known():
     return json.load(open(p)).get("findings", [])
 
 
-def finding_for(known, prop, sid, op):
+def finding_for(known, prop, cls):
+    """a recorded (status = known) finding with exactly this property and specification-computed class"""
     for k in known:
-        if k.get("status") == "known" and k["property"] == prop and k["sid"] == sid and k["op"] == op:
+        if k.get("status") == "known" and k["property"] == prop and cls != "-" and k.get("class") == cls:
             return k
     return None
 
@@ -205,8 +206,8 @@ def collect(prop, fut, chunk, stats, violations):
     stats["transitions"] += res["transitions"]
     stats["chunks"] += 1
     summarize_trace(res["trace"], prop, stats["distinct"], stats["ops"], stats["samples"])
-    for (si, off, op) in res["bad"]:
-        violations.append((chunk[si], off, op))
+    for (si, off, op, cls) in res["bad"]:
+        violations.append((chunk[si], off, op, cls))
     try:
         os.remove(res["trace"])
         os.remove(res["trace"].replace("trace", "script"))
@@ -277,7 +278,15 @@ def main():
         if args.replay:
             sessions = [[json.loads(l) for l in open(args.replay) if l.strip()]]
             stats, viol = run_sessions(prop, iter(sessions), props, work, 1)
+            known = load_known()
+            for (_s, off, op, cls) in viol:
+                kf = finding_for(known, prop, cls)
+                if kf:
+                    print(f"KNOWN-FINDING: property={prop} {kf['what']} [class {cls}]")
+            viol = [v for v in viol if not finding_for(known, prop, v[3])]
             if viol:
+                for (_s, off, op, cls) in viol:
+                    log(f"  event #{off} ({op}) is not allowed by the specification (class {cls})")
                 print(f"VIOLATION property={prop} replay={args.replay}")
                 sys.exit(1)
             print(f"replay conforms ({stats['events']} events)")
